@@ -97,3 +97,38 @@ def unique_target(rows, variant):
     """the single target variant of the unguarded arm(s) of `variant`, else None"""
     t = {r["dst"] for r in rows if r["src"] == variant}
     return next(iter(t)) if len(t) == 1 else None
+
+
+def parser_operator_table(facts):
+    """rows (token, node variant, {node field: source expr}, eaten token, fn) for every operator the expression parser builds:
+    binary: `match lex.token { Token::T => { it.eat(&Token::T, ..)?; let right = ..; Node::V { left: <first operand>, right } } }`
+    unary:  `if it.eat_if(&Token::T).is_some() { let factor = ..; Node::V { expr: factor } }`"""
+    syn = facts.syn
+    rows = []
+    fns = [f for f in syn.fns if f["mod"] == "parse::operation" and f.get("body")]
+    if not fns:
+        raise AnchorError("no functions in parse::operation")
+    for f in fns:
+        for n in walk(f["body"]):
+            if n.get("k") == "match" and src(strip(n["e"])).replace(" ", "") == "lex.token":
+                for a in n["arms"]:
+                    for alt in pat_alternatives(a["pat"]):
+                        if alt.get("k") not in ("ppath", "pstruct", "ptstruct") or not alt["p"].startswith("Token::"):
+                            continue
+                        tok = alt["p"].split("::")[1]
+                        structs = [m for m in walk(a["body"]) if m.get("k") == "struct" and m["p"].startswith("Node::")]
+                        eats = [src(strip(m["args"][0])).split("::")[-1] for m in walk(a["body"]) if m.get("k") == "mcall" and m["m"] == "eat" and m["args"]]
+                        # the operand parsed after the token
+                        rights = [m for m in walk(a["body"]) if m.get("k") == "local" and src(m["pat"]) in ("right", "to")]
+                        for st in structs:
+                            rows.append({"token": tok, "node": st["p"].split("::")[1], "fields": {k: src(strip(v)) for k, v in st["fields"]},
+                                         "eaten": eats, "fn": f, "kind": "binary", "parsed_after": [src(r["pat"]) for r in rights]})
+            if n.get("k") == "if":
+                c = src(strip(n["c"])).replace(" ", "")
+                if c.startswith("it.eat_if(&Token::") and c.endswith(").is_some()"):
+                    tok = c[len("it.eat_if(&Token::"):-len(").is_some()")]
+                    structs = [m for m in walk(n["then"]) if m.get("k") == "struct" and m["p"].startswith("Node::")]
+                    for st in structs:
+                        rows.append({"token": tok, "node": st["p"].split("::")[1], "fields": {k: src(strip(v)) for k, v in st["fields"]},
+                                     "eaten": [tok], "fn": f, "kind": "unary", "parsed_after": ["factor"]})
+    return rows
